@@ -120,6 +120,14 @@ def check_case(case, acc):
     acc.exec()
     if len(a.tp_list) != 1 or abs(a.tp_list[0] - want_w) > TW:
         bad("ap-tp-list:" + fk, "Ap(TPMetricsAph).tp_list=%s, expected [%.9f]" % (a.tp_list, want_w))
+    # the pair's weight is a function of the two orientations: the same map-frame pair handed over with the transforms of other
+    # (level) ego poses keeps its weight exactly - also when the boxes are slightly tilted
+    if fr == "map" and not case["neg_e"] and not case["neg_g"]:
+        for ego2 in ((0.0, 0.0, 0.0), (3.0, -7.0, 2.0), (-40.0, 12.5, -0.9)):
+            acc.exec()
+            wo = TPMetricsAph().get_value(DynamicObjectWithPerceptionResult(e, g, transforms=G.transforms(ego2)))
+            if abs(wo - w) > 1e-9:
+                bad("aph-weight:depends-on-ego-pose", "the same map-frame pair weighs %.9f with the transforms of ego pose %s and %.9f with those of %s" % (wo, ego2, w, ego))
     # label policies under which an estimate of another class is a TP for this ground truth: the heading weight is still that of the
     # two physical orientations
     if r == 0.0 and p == 0.0 and not case["neg_e"]:
